@@ -189,7 +189,7 @@ public:
 
   virtual Object *record_object(TypeIndex type_index);
 
-  void hash_function_signature(FunctionRemap *remap);
+  bool hash_function_signature(FunctionRemap *remap);
 
 
   std::string
